@@ -625,9 +625,10 @@ impl<P, T> Iter<'_, P, T> {
     pub fn __verif_stack(&self) -> &[usize] {
         &self.nodes
     }
-    /// move the stack into a buffer with reserved capacity (content and order unchanged)
+    /// move the stack into a buffer with exactly `cap` reserved slots (content and order unchanged)
     pub fn __verif_rehome(&mut self, cap: usize) {
-        let mut fresh = Vec::with_capacity(cap.max(self.nodes.len()));
+        assert!(self.nodes.len() <= cap);
+        let mut fresh = Vec::with_capacity(cap);
         for x in self.nodes.iter() {
             fresh.push(*x);
         }
@@ -643,7 +644,8 @@ impl<P, T> IterMut<'_, P, T> {
         &self.nodes
     }
     pub fn __verif_rehome(&mut self, cap: usize) {
-        let mut fresh = Vec::with_capacity(cap.max(self.nodes.len()));
+        assert!(self.nodes.len() <= cap);
+        let mut fresh = Vec::with_capacity(cap);
         for x in self.nodes.iter() {
             fresh.push(*x);
         }
@@ -659,7 +661,8 @@ impl<P, T> IntoIter<P, T> {
         &self.nodes
     }
     pub fn __verif_rehome(&mut self, cap: usize) {
-        let mut fresh = Vec::with_capacity(cap.max(self.nodes.len()));
+        assert!(self.nodes.len() <= cap);
+        let mut fresh = Vec::with_capacity(cap);
         for x in self.nodes.iter() {
             fresh.push(*x);
         }
